@@ -2893,7 +2893,24 @@ func (p *Posix) PutObject(ctx context.Context, po s3response.PutObjectInput) (s3
 			// checksums, chunk signatures) happens when the readers see
 			// the end of the stream, and a body sent without an announced
 			// length has not been looked at yet.
-			n, err := io.Copy(io.Discard, po.Body)
+			// A checksum value given with the upload is compared with
+			// the (empty) data like for any other object.
+			var rdr io.Reader = po.Body
+			for _, config := range []hashConfig{
+				{po.ChecksumCRC32, utils.HashTypeCRC32},
+				{po.ChecksumCRC32C, utils.HashTypeCRC32C},
+				{po.ChecksumSHA1, utils.HashTypeSha1},
+				{po.ChecksumSHA256, utils.HashTypeSha256},
+				{po.ChecksumCRC64NVME, utils.HashTypeCRC64NVME},
+			} {
+				if config.value != nil {
+					rdr, err = utils.NewHashReader(rdr, *config.value, config.hashType)
+					if err != nil {
+						return s3response.PutObjectOutput{}, fmt.Errorf("initialize hash reader: %w", err)
+					}
+				}
+			}
+			n, err := io.Copy(io.Discard, rdr)
 			if err != nil {
 				return s3response.PutObjectOutput{}, err
 			}
